@@ -7,11 +7,11 @@ ALL = [f"C{i:02d}" for i in range(1, 21)]
 
 # id -> (technique, level text, level_note, design_ref)
 CLAIMED = {
-    "C03": ("Coq proof (bit-string slice = shift/mask model, all buffers/offsets/widths) + kernel-evaluated correspondence with _extract_bits/read_as_int/read_as_bytes",
+    "C03": ("Coq proof (bit-string slice = shift/mask model, all buffers/offsets/widths) + translator: packets._extract_bits regenerated into Gallina from the current source and proved equal to the model on every run + kernel-evaluated correspondence with _extract_bits/read_as_int/read_as_bytes",
             "Theorems C03_read_int/C03_read_bytes/... prove, for every well-formed buffer and every in-range (p, n), that the Gallina "
             "transcription of the cursor reads returns the value of bits p..p+n-1 of the buffer's bit string, right-aligned bytes, cursor p+n, "
             "buffer unchanged. The model is tied to /repo on every run by evaluating it in Coq's VM on the same inputs as the implementation.",
-            "Trusted: Coq kernel+VM, the hand model's fidelity as sampled by the correspondence (exhaustive small buffers, every p mod 8 x n mod 8), CPython int/bytes primitives.",
+            "Trusted: Coq kernel+VM, the hand model's fidelity as sampled by the correspondence (exhaustive small buffers, every p mod 8 x n mod 8) and, for _extract_bits, the translator harness/gen_fun.py with the Python operation semantics of Base/PyEval.v; CPython int/bytes primitives.",
             "DESIGN.md section 4 C03, 8.1"),
     "C02": ("Coq proof by induction over the packet list (loop invariant: unread buffer ++ pending reads = encoding of the remaining packets; any chunking, prefix k, trim threshold T, known/unknown total) + kernel-evaluated correspondence with ccsds_generator on bytes/file/socket sources, also with the buffer-trim literal of its code object replaced by small numbers (same number given to the model) + real >20 MB stream judged against the spec",
             "Theorems C02_bytes_source / C02_file_socket_source / C02_loop_exact / C02_trim_and_chunking_irrelevant: for every list of CCSDS packets each preceded by k foreign bytes and every cutting of the stream into non-empty read results, the framer model yields exactly the packets, for all three source kinds, all T. Model tied to packets.ccsds_generator each run.",
@@ -49,9 +49,9 @@ CLAIMED = {
             "Sixteen theorems (Props/C08.v), including that a first-order spline returns, at each of its points, that point's calibrated value (real-valued statement over Flocq binary64, finite slope). partial: first-order spline values strictly inside a segment and float polynomials are tied to the code by bit-exact correspondence (every knot, both end points, midpoints, outside); float ** n (n >= 2) is libm and excluded.",
             "Trusted: Coq kernel+VM; Flocq 4.1 (+ standard-library real axioms); CPython float arithmetic and the built-in sum() algorithm as modelled. Genuine defect F5 found by this check and repaired by a fix: commit.",
             "DESIGN.md section 4 C08"),
-    "C07": ("Coq proof (binary = left-padded bit slice; string raw buffer = bit slice right-padded with zeros, by bit-string lemmas; whole / first-terminator / leading-size text; cursor + computed length; first-match lookup; linear adjustment exact below 2^53 via Flocq Bmult/Bplus/Btrunc correctness) + kernel-evaluated correspondence with String/BinaryDataEncoding.parse_value over 8 charsets",
-            "Eleven theorems (Props/C07.v). partial: text decoding is a modelled codec (ASCII, Latin-1, cp1252 subset, UTF-8, UTF-16/32 LE/BE without surrogates) tied to Python's codecs by correspondence; bytewise terminator search in multi-byte charsets mirrors the code (F15 noted in DESIGN).",
-            "Trusted: Coq kernel+VM; Flocq 4.1 and the standard-library real axioms (length arithmetic); CPython codecs. Genuine defect F6 found by this check and repaired by a fix: commit.",
+    "C07": ("Coq proof (binary = left-padded bit slice; string raw buffer = bit slice right-padded with zeros, by bit-string lemmas; whole / first-terminator (searched on character boundaries) / leading-size text; cursor + computed length; codec and search fuel irrelevant above the input length; first-match lookup; linear adjustment exact below 2^53 via Flocq Bmult/Bplus/Btrunc correctness) + kernel-evaluated correspondence with String/BinaryDataEncoding.parse_value over 8 charsets",
+            "Thirteen theorems (Props/C07.v). partial: text decoding is a modelled codec (ASCII, Latin-1, cp1252 subset, UTF-8, UTF-16/32 LE/BE without surrogates) tied to Python's codecs by correspondence.",
+            "Trusted: Coq kernel+VM; Flocq 4.1 and the standard-library real axioms (length arithmetic); CPython codecs. Genuine defects F6 and F15 (terminator bytes across a character boundary) found by this check and repaired by fix: commits.",
             "DESIGN.md section 4 C07, 8.4"),
     "C05": ("Coq proof (entry lists = flattened parameter lists with nested containers expanded in place; candidates = filter of inheritors by criteria; unique child / abstract dead end / concrete stop / ambiguity; every outcome lies on a unique-child path whose flattened entries fill the packet in order; definitions compiled from a linked document are ranked and on ranked definitions the walk and nesting fuel is irrelevant) + kernel-evaluated correspondence through packet_generator on random container trees",
             "Eleven theorems (Props/C05.v) for every definition, packet and fuel; field decoding is the C04/C07/C08 model.",
